@@ -137,7 +137,7 @@ _INTS = st.one_of(st.integers(-5, 5), st.integers(-10 ** 6, 10 ** 6),
 _FLOATS = st.one_of(st.floats(allow_nan=False, allow_infinity=False),
                     st.sampled_from([0.0, -0.0, 1e300, 1e-300, 5e-324, 0.1, 1.0 / 3, 2.5,
                                      1.7976931348623157e308, 123456789.12345678,
-                                     float("inf"), float("-inf")]),
+                                     float("inf"), float("-inf"), float("nan")]),
                     st.integers(-1000, 1000).map(float))
 _DATES = st.dates(min_value=dt.date(1, 1, 1), max_value=dt.date(9999, 12, 31))
 _TIMES = st.times().map(lambda t: t.replace(microsecond=0, tzinfo=None))
